@@ -164,3 +164,71 @@ pub proof fn lemma_suffix_facts()
     ensures plain_path(s_index_html()), plain_path(s_slash_index_html()), plain_path(s_dot_html()),
 {
 }
+
+// ===== the directory a symbolic link lives in (Range::get_content_range_list reverses the path and splits at the first '/') =====
+pub proof fn lemma_last_sl_after(a: Seq<char>, c: Seq<char>)
+    requires forall|i: int| 0 <= i < c.len() ==> #[trigger] c[i] != '/',
+    ensures last_sl(a + slash() + c) == a.len(),
+    decreases c.len()
+{
+    let s = a + slash() + c;
+    if c.len() == 0 {
+        assert(s.last() == '/');
+    } else {
+        assert(s.last() == c.last());
+        assert(s.drop_last() =~= a + slash() + c.drop_last());
+        assert forall|i: int| 0 <= i < c.drop_last().len() implies #[trigger] c.drop_last()[i] != '/' by { assert(c.drop_last()[i] == c[i]); }
+        lemma_last_sl_after(a, c.drop_last());
+    }
+}
+pub proof fn lemma_last_sl_none(c: Seq<char>)
+    requires forall|i: int| 0 <= i < c.len() ==> #[trigger] c[i] != '/',
+    ensures last_sl(c) == -1,
+    decreases c.len()
+{
+    if c.len() > 0 {
+        assert forall|i: int| 0 <= i < c.drop_last().len() implies #[trigger] c.drop_last()[i] != '/' by { assert(c.drop_last()[i] == c[i]); }
+        lemma_last_sl_none(c.drop_last());
+    }
+}
+// the path reversed, split at its first '/', second piece reversed again: the directory part
+pub proof fn lemma_dir_by_reversal(s: Seq<char>)
+    ensures ({
+        let sp = split_once_spec(s.reverse(), slash());
+        (sp.is_none() ==> dir_part(s) == Seq::<char>::empty()) && (sp.is_some() ==> dir_part(s) == sp.unwrap().1.reverse())
+    }),
+{
+    let rv = s.reverse();
+    axiom_split_once(rv, slash());
+    let sp = split_once_spec(rv, slash());
+    assert(rv.len() == s.len());
+    assert(forall|i: int| 0 <= i < s.len() ==> rv[i] == s[s.len() - 1 - i]);
+    if sp.is_none() {
+        assert forall|i: int| 0 <= i < s.len() implies #[trigger] s[i] != '/' by {
+            if s[i] == '/' { let k = s.len() - 1 - i; assert(rv[k] == '/'); assert(rv.subrange(k, k + 1) =~= slash()); assert(has_sub(rv, slash())); }
+        }
+        lemma_last_sl_none(s);
+    } else {
+        let f = sp.unwrap().0;
+        let pr = sp.unwrap().1;
+        assert(rv == f + slash() + pr);
+        let a = pr.reverse();
+        let c = f.reverse();
+        assert forall|i: int| 0 <= i < c.len() implies #[trigger] c[i] != '/' by {
+            let k = f.len() - 1 - i;
+            if f[k] == '/' { assert(f.subrange(k, k + 1) =~= slash()); assert(has_sub(f, slash())); }
+        }
+        assert(s =~= a + slash() + c) by {
+            assert(s.len() == a.len() + 1 + c.len());
+            assert forall|i: int| 0 <= i < s.len() implies s[i] == (a + slash() + c)[i] by {
+                let j = s.len() - 1 - i;      // position in rv
+                assert(s[i] == rv[j]);
+                if i < a.len() { assert(rv[j] == pr[j - f.len() - 1]); assert(a[i] == pr[pr.len() - 1 - i]); }
+                else if i == a.len() { assert(j == f.len()); assert(rv[j] == slash()[0]); }
+                else { assert(rv[j] == f[j]); assert(c[i - a.len() - 1] == f[f.len() - 1 - (i - a.len() - 1)]); }
+            }
+        }
+        lemma_last_sl_after(a, c);
+        assert(s.subrange(0, a.len() as int) =~= a);
+    }
+}
